@@ -2,6 +2,7 @@
 import os
 from concurrent.futures import ThreadPoolExecutor
 import c18
+import c02fuzz
 
 
 def K(q, t):
@@ -27,6 +28,8 @@ PROPS = {
         level_note="trusted: ref_url.h (gated on 921 WPT vectors per run), ICU 15 UTS46 for non-ASCII hosts, generators; says nothing about inputs not generated",
     ),
     "C02": dict(
+        post=c02fuzz.post,      # thorough tier only: coverage-guided libFuzzer leg on the same driver
+        prebuild=[],
         legs=[dict(monitor="c02", config="asan", name="c02:surface/asan", cases=K(120000, 3000000)),
               dict(monitor="c02", config="asan-dev", name="c02:surface/asan-dev", cases=K(16000, 400000)),
               dict(monitor="c02", config="plain", name="c02:surface/valgrind", cases=K(3200, 64000), env={"VERIF_LOG_EACH_CASE": "1"},
@@ -37,7 +40,8 @@ PROPS = {
              "setter/clear/copy/move histories for both URL types, can_parse/href_from_file/percent-encode helpers, IDNA (to_ascii, to_unicode, map, normalize, punycode, label "
              "validity, transcoding), url_search_params (all operations and iterators), url_pattern construction (string, string+base, init dictionary, ignoreCase) followed by "
              "test/exec/match, and the whole C API; each argument lives in an exactly-sized heap block. Oracles: ASan+UBSan+LSan (also with ADA_DEVELOPMENT_CHECKS=1), valgrind "
-             "memcheck on the plain build (uninitialised reads), catch(...) around every family, alarm() watchdog per case. Non-trivial: case reaching >= 3 families. "
+             "memcheck on the plain build (uninitialised reads), catch(...) around every family, CPU-time watchdog per case; the thorough tier adds a coverage-guided libFuzzer leg "
+             "(clang ASan+UBSan, 16 jobs, seeded from the WPT corpus, dictionary fuzz/url.dict) on the same driver. Non-trivial: case reaching >= 3 families. "
              "Distinct: (family bitmask, size class).",
         floors=dict(any={"parsed_ok": 1000, "setter_calls": 100000, "patterns_constructed": 1000, "pattern_match_calls": 5000, "idna_rounds": 10000, "search_params_ops": 10000, "c_api_rounds": 10000, "cases_over_8KiB": 100}),
         assumptions=["sanitizers only see executed paths; red-zone tools miss intra-object and far overflows",
